@@ -141,6 +141,7 @@ def worker_main(prop, cases_path, out_path):
     os.environ["TMPDIR"] = scratch
     tempfile.tempdir = scratch
     os.environ["NGS_VERIF_SCRATCH"] = scratch
+    os.chdir(scratch)      # a stray relative path in the code under test lands in scratch
     try:
         _assert_tree()
         quiet()
@@ -220,6 +221,7 @@ def main(argv):
     jobs = max(1, min(jobs, len(cases)))
     timeout = getattr(mod, "WORKER_TIMEOUT", {"quick": 900, "thorough": 7200})[tier]
     scratch = tempfile.mkdtemp(prefix=f"ngsv-{prop}-")
+    os.environ["NGS_VERIF_RUN_ID"] = str(os.getpid())    # names scratch on other file systems
     results, lost, herrs = [], [], []
     obs = {}
     try:
@@ -266,6 +268,9 @@ def main(argv):
                             f"(exit {p.returncode}): {tail}")
     finally:
         shutil.rmtree(scratch, ignore_errors=True)
+        import glob
+        for left in glob.glob(f"/dev/shm/ngsv{os.getpid()}-*"):
+            shutil.rmtree(left, ignore_errors=True)
 
     by_id = {c["id"]: c for c in cases}
     known = [k for k in load_known() if k["property"] == prop]
